@@ -45,6 +45,28 @@ pub fn n_hop_count<'a>(input: Stream<i32, Process<'a, A>>, to: &Process<'a, B>) 
         .embedded_output("out0");
 }
 
+/// one hop over `TCP.lossy_delayed_forever()`: a safe configuration whose output is `NoOrder`
+/// (dropped messages are modelled as indefinitely delayed, so anything may overtake anything)
+pub fn n_lossy<'a>(input: Stream<i32, Process<'a, A>>, to: &Process<'a, B>) {
+    let tick = to.tick();
+    let received = input.send(to, TCP.lossy_delayed_forever().bincode().name("ab"));
+    received
+        .clone()
+        .fold(
+            q!(|| 0i32),
+            q!(
+                |acc, x| *acc = acc.wrapping_add(x.wrapping_mul(x)),
+                commutative = manual_proof!(/** sum of squares */)
+            ),
+        )
+        .snapshot(&tick, nondet!(/** harness observation shim: per-tick snapshot */))
+        .all_ticks()
+        .embedded_output("out1");
+    received
+        .assume_ordering::<TotalOrder>(nondet!(/** harness observation shim: compared as a multiset */))
+        .embedded_output("out0");
+}
+
 /// A -> B -> A round trip (two hops), order preserved end to end
 pub fn n_roundtrip<'a>(input: Stream<i32, Process<'a, A>>, b: &Process<'a, B>) {
     let a = input.location().clone();
